@@ -33,6 +33,13 @@ C12_OBLIGATIONS = _inits("C12_ResultNormal", "C12_CellsMoveWithTheTurn", "C12_Ve
 C12_CLAIM = ("Apalache: on the 2-d integer lattice (spec/C12Core.tla) a quarter turn about any reference point carries the centre of cell (i, j) "
              "to the centre of cell (ny-1-j, i) of a normal mesh with swapped counts and cell sizes, vectors turn with the positions, two turns "
              "are the half turn and four the identity - for unbounded coordinates (%d of %d obligations, reported, not relied on)")
+# spec/C04Core.tla: every stencil of operators._1d_diff on the polynomials it is exact for
+C04_OBLIGATIONS = _inits("C04_CentralFirstExactOnQuadratics", "C04_LowerEdgeFirstExactOnQuadratics", "C04_UpperEdgeFirstExactOnQuadratics",
+                         "C04_TwoCellFirstExactOnLinear", "C04_CentralSecondExactOnCubics", "C04_LowerEdgeSecondExactOnCubics",
+                         "C04_UpperEdgeSecondExactOnCubics", "C04_ThreeCellSecondExactOnQuadratics")
+C04_CLAIM = ("Apalache: every stencil the specification gives for the first and second derivative (interior, both ends, short lines) reproduces "
+             "the derivative of the polynomials it is exact for, for unbounded integer coefficients, positions and cell sizes "
+             "(spec/C04Core.tla; %d of %d obligations, reported, not relied on)")
 C14_CLAIM = ("Apalache: a subregion inside the mesh region, on cell faces and a whole positive number of cells long stays so under translation, "
              "scaling by any non-zero integer factor about any point and the half turn (spec/C14Core.tla, inductive invariant for "
              "unbounded coordinates; %d of %d obligations, reported, not relied on)")
